@@ -420,9 +420,9 @@ def model_export_to_file(f, model=None, repo=None):
     Returns:
         Nothing
     """
-    if not model and not repo:
+    if model is None and repo is None:
         raise Exception("specify either a model or a repo")
-    if model and repo:
+    if model is not None and repo is not None:
         raise Exception("specify either a model or a repo")
 
     processed_set = set()
@@ -507,13 +507,13 @@ def model_export_to_file(f, model=None, repo=None):
             f.write(f"{id(obj)};\n")
         f.write("\n}\n")
 
-    if repo or hasattr(model, "_tx_model_repository"):
-        if not repo:
+    if repo is not None or hasattr(model, "_tx_model_repository"):
+        if repo is None:
             repo = model._tx_model_repository.all_models
         for m in repo:
             _export_subgraph(m)
             _export(m)
-        if model:
+        if model is not None:
             # The model itself may not be registered in its repository
             # (e.g. a model loaded from a string): export it in any case.
             _export(model)
